@@ -171,6 +171,27 @@ open Tongo (Outcome)
 def readN (n : Nat) (bs : Bytes) : Outcome (Bytes × Bytes) :=
   if n ≤ bs.length then .ok (bs.take n, bs.drop n) else .err "short"
 
+/-- the same without walking the whole remaining input (`List.length`) at every read: used by the compiled driver,
+proved equal below (`@[csimp]`) -/
+def readNFast (n : Nat) (bs : Bytes) : Outcome (Bytes × Bytes) :=
+  if n == 0 || !(bs.drop (n - 1)).isEmpty then .ok (bs.take n, bs.drop n) else .err "short"
+
+@[csimp] theorem readN_eq_readNFast : @readN = @readNFast := by
+  funext n bs
+  unfold readN readNFast
+  by_cases h0 : n = 0
+  · subst h0; simp
+  · have : (n ≤ bs.length) = (¬ (bs.drop (n - 1) = [])) := by
+      rw [List.drop_eq_nil_iff]
+      apply propext
+      omega
+    by_cases h : n ≤ bs.length
+    · have h' : ¬ (bs.drop (n - 1) = []) := by rwa [← this]
+      simp [h, h0, h']
+    · have h' : bs.drop (n - 1) = [] := by
+        rw [List.drop_eq_nil_iff]; omega
+      simp [h, h0, h']
+
 def readLE (w : Nat) (bs : Bytes) : Outcome (Nat × Bytes) :=
   match readN w bs with
   | .ok (a, r) => .ok (unLe a, r)
